@@ -3,6 +3,6 @@ CONSTANT Names = {"x", "y"}
 CONSTANT NameSeq <- Seq2
 CONSTANT Shapes <- ShapesQ
 CONSTANT FlagsX <- FX3
-CONSTANT FlagsY <- FYq
-INVARIANT RefinesD
+CONSTANT FlagsY <- FY3
+INVARIANT Confluent
 CHECK_DEADLOCK FALSE
